@@ -56,11 +56,17 @@ func (i *inputString) getCurrentAsByte() byte {
 		i.eof = true
 		return 0
 	}
-	var pos int
-	for j := 0; j < i.pointer; j++ {
-		pos += utf8.RuneLen(i.runes[j])
+	// Find the byte offset of the current code point. An invalid byte is one
+	// code point (U+FFFD) but only one byte wide, so the offset must come from
+	// decoding the string, not from the encoded length of the code points.
+	n := 0
+	for pos := range i.s {
+		if n == i.pointer {
+			return i.s[pos]
+		}
+		n++
 	}
-	return i.s[pos]
+	return 0
 }
 
 func (i *inputString) rewindLast() {
